@@ -72,6 +72,9 @@ def part_threads(spec, res):
         st, errs = sched.run_schedule(plan_, {"main": main}, timeout=120.0)
         res["evals"] += 1
         c["thread_schedules_run"] = c.get("thread_schedules_run", 0) + 1
+        if st["deadlock"]:
+            res["violations"].append({"msg": "threads deadlocked inside eliot: %s" % st["deadlock"], "mech": None, "detail": {"part": "threads", "plan": plan_, "program": prog}})
+            return st
         if st["aborted"]:
             res["inconclusive"] = "schedule abandoned: %s" % st["aborted"]
             return st
